@@ -1160,6 +1160,43 @@ func scenCloseBuffered(tr *vtrace.Tracer, kind string) error {
 	return nil
 }
 
+// C12: calls issued while the sender of a closed node is on its way out (it has
+// drained the send queue and has not returned yet; the receiver is gone): with
+// a send buffer a request can still slip into the queue.  Nobody may be left
+// waiting.
+func scenCloseSenderExitWindow(tr *vtrace.Tracer, kind string) error {
+	l, err := newLife(tr, EnvOpts{Nodes: 1, SendBuf: 16})
+	if err != nil {
+		return err
+	}
+	defer l.finish()
+	a := l.call("Rpc", 1, false, false)
+	l.wait(a, SyncTimeout)
+	h := tr.NewHold(func(e vtrace.Event) bool { return e.Ev == "SenderExit" && e.Node == 1 })
+	defer h.Open()
+	from := tr.Len()
+	tr.Emit("CloseCall", 0, 0)
+	l.e.Mgr.Close()
+	tr.Emit("CloseReturned", 0, 0)
+	if !h.Arrived(SyncTimeout) {
+		return fmt.Errorf("sender did not reach its exit")
+	}
+	l.awaitEv(from, SyncTimeout, "ReceiverExit", 1)
+	var cs []*lifeCall
+	for i := 0; i < 12; i++ {
+		cs = append(cs, l.call(kind, 1, false, false))
+	}
+	for _, c := range cs {
+		l.wait(c, QuietT/4)
+	}
+	h.Open()
+	for _, c := range cs {
+		l.wait(c, QuietT/4)
+	}
+	l.quiescent()
+	return nil
+}
+
 // C12: Close strikes between the receiver routing a reply and its end-of-loop
 // check, while another call still awaits its reply.
 func scenCloseAtLoopEnd(tr *vtrace.Tracer, kind string) error {
@@ -1302,6 +1339,7 @@ var LifeScenarios = map[string][]LifeScenario{
 		{Name: "close-while-awaiting", Run: scenCloseWhileAwaiting},
 		{Name: "close-buffered", Run: scenCloseBuffered},
 		{Name: "close-at-loop-end", Run: scenCloseAtLoopEnd},
+		{Name: "close-sender-exit-window", Run: scenCloseSenderExitWindow},
 		{Name: "close-noconnect", Kind: "Rpc", Run: scenCloseNoConnect},
 		{Name: "close-never-connected", Run: scenCloseNeverConnected},
 	},
